@@ -72,6 +72,11 @@ func (w *World) Adopt(b dyn.Buf, name string) *View {
 func (w *World) NextStamp() dyn.Val {
 	w.Stamp++
 	n := w.Stamp
+	if n%5 == 0 {
+		// every fifth written value is zero: a store that is skipped or
+		// special-cased for the zero value must be visible too
+		return w.T.FromInt(0)
+	}
 	switch {
 	case w.T.Bits == 8:
 		n = 1 + (n-1)%100
@@ -224,13 +229,27 @@ func (w *World) Covering(st *Storage, pos int) int {
 // AppendPre reports whether Append(dst, src) is inside the domain of the
 // properties: frame-aligned operands and a source window that does not
 // overlap the destination's spare capacity (unless it is the destination).
-func AppendPre(dst, src *View) bool {
+func AppendPre(dst, src *View) bool { return appendPre(dst, src, false) }
+
+// AppendPreHistories is the domain used by the history property (C12): in
+// addition, operands with a partly filled last frame are admitted as long as
+// the append fits the capacity (the in-place step is plain Go-slice
+// behaviour; only a *growing* append of unaligned operands is outside the
+// stated domain, see DESIGN.md section 7 (ii)).
+func AppendPreHistories(dst, src *View) bool { return appendPre(dst, src, true) }
+
+func appendPre(dst, src *View, unalignedInPlace bool) bool {
 	d, s := dst.M, src.M
 	if d.C != s.C || d.C <= 0 {
 		return false
 	}
-	if d.Len%d.C != 0 || s.Len%s.C != 0 || d.Cap%d.C != 0 {
+	if d.Cap%d.C != 0 {
 		return false
+	}
+	if d.Len%d.C != 0 || s.Len%s.C != 0 {
+		if !unalignedInPlace || d.Cap < d.Len+s.Len {
+			return false
+		}
 	}
 	if dst == src {
 		return true
